@@ -819,7 +819,33 @@ def term_of(body, x, depth=0, stop_named=True):
     l = place["l"]
     base = _local_term(body, l, depth, stop_named)
     proj = list(place["p"])
+    if proj and isinstance(proj[0], dict) and "dc" in proj[0]:
+        base = _refine_variant(body, base, proj[0]["dc"], depth, stop_named)
     return _apply_proj(base, proj)
+
+
+def _refine_variant(body, base, dc, depth, stop_named):
+    """`(x as V).f` can only read a value built as variant V: select the definition of x that builds V.
+    `Try::branch(r) as Continue` reads the Ok/Some payload of r (std's Try impls for Result and Option)."""
+    if base[0] == "local":
+        alts = _alternatives(body, base[1], depth, stop_named, frozenset())
+        if alts:
+            keep = [a for a in alts if not (a[0] == "agg" and a[2] is not None and a[2] != dc)]
+            if dc in ("Ok", "Some"):
+                keep = [a for a in keep if not (a[0] == "call" and a[1] == "std::ops::FromResidual::from_residual")]
+            if len(keep) == 1 and len(keep) < len(alts):
+                return keep[0]
+        return base
+    if base[0] == "call" and base[1] == "std::ops::Try::branch" and base[2] and dc == "Continue":
+        inner = base[2][0]
+        cands = [inner]
+        if inner[0] == "local":
+            cands = _alternatives(body, inner[1], depth, stop_named, frozenset()) or [inner]
+        keep = [a for a in cands if not (a[0] == "agg" and a[2] in ("Err", "None")) and
+                not (a[0] == "call" and a[1] == "std::ops::FromResidual::from_residual")]
+        if len(keep) == 1 and keep[0][0] == "agg" and keep[0][2] in ("Ok", "Some") and keep[0][3]:
+            return ("agg", "std::ops::ControlFlow", "Continue", {"0": list(keep[0][3].values())[0]})
+    return base
 
 
 def _apply_proj(base, proj):
@@ -854,8 +880,46 @@ def _local_term(body, l, depth, stop_named):
     ds = body.defs().get(l, [])
     whole = [d for d in ds if (d.si is None) or (d.node["k"] == "assign" and not d.node["place"]["p"])]
     if len(ds) != 1 or len(whole) != 1:
+        if len(ds) > 1 and len(whole) == len(ds):
+            alts = _alternatives(body, l, depth, stop_named, frozenset())
+            if alts is not None and len(alts) == 1:
+                return alts[0]
         return ("local", l)
-    d = whole[0]
+    return _def_term(body, whole[0], depth, stop_named)
+
+
+def _alternatives(body, l, depth, stop_named, seen):
+    """terms of all definitions of a local that is only ever assigned as a whole (copies of other such locals are
+    followed); identical alternatives are merged.  None if some definition is partial."""
+    if 1 <= l <= body.arg_count or l in seen or depth > 30:
+        return None
+    ds = body.defs().get(l, [])
+    if not ds:
+        return None
+    out = []
+    for d in ds:
+        n = d.node
+        if d.si is not None:
+            if n["k"] != "assign" or n["place"]["p"]:
+                return None
+            rv = n["rv"]
+            if rv["k"] == "use":
+                p = op_place(rv["op"])
+                if p is not None and not p["p"] and len(body.defs().get(p["l"], [])) > 1:
+                    sub = _alternatives(body, p["l"], depth + 1, stop_named, seen | {l})
+                    if sub is None:
+                        return None
+                    for t in sub:
+                        if t not in out:
+                            out.append(t)
+                    continue
+        t = _def_term(body, d, depth + 1, stop_named)
+        if t not in out:
+            out.append(t)
+    return out
+
+
+def _def_term(body, d, depth, stop_named):
     n = d.node
     if d.si is None:
         return ("call", _norm(n["callee"].get("path", "")), [term_of(body, a, depth + 1, stop_named) for a in n["args"]], d)
@@ -908,6 +972,58 @@ def strip(t, calls=TRANSPARENT_CALLS):
             t = t[1]
         else:
             return t
+
+
+OK_PRESERVING = ("std::result::Result::map_err", "std::result::Result::or_else", "std::result::Result::inspect_err")
+
+
+def canon_try(t, depth=0):
+    """rewrite the `?` form `(Try::branch(X) as Continue).0` into `(X' as Ok).0` / `(X' as Some).0`, X' being X without
+    conversions of the error (map_err keeps the Ok payload); applied to proj bases and call arguments recursively"""
+    if depth > 30 or not isinstance(t, tuple) or not t:
+        return t
+    if t[0] == "proj":
+        base = canon_try(t[1], depth + 1)
+        proj = t[2]
+        nd = tuple(e for e in proj if e != "*")
+        sb = strip(base)
+        if sb[0] == "call" and sb[1] == "std::ops::Try::branch" and sb[2] and len(nd) >= 2 and nd[0][:2] == ("dc", "Continue") and nd[1][0] == "f":
+            x = strip(sb[2][0])
+            while x[0] == "call" and x[1] in OK_PRESERVING and x[2]:
+                x = strip(x[2][0])
+            ty = {}
+            if len(sb) > 3:
+                targs = sb[3].node["callee"].get("targs") or [{}]
+                ty = targs[0]
+            if ty.get("adt") == "std::result::Result":
+                head = (("dc", "Ok"), ("f", "std::result::Result", "Ok", "0"))
+            elif ty.get("adt") == "std::option::Option":
+                head = (("dc", "Some"), ("f", "std::option::Option", "Some", "0"))
+            else:
+                return ("proj", base, proj)
+            # drop everything up to and including the Continue payload field
+            k = 0
+            seen = 0
+            for i, e in enumerate(proj):
+                if e != "*":
+                    seen += 1
+                    if seen == 2:
+                        k = i + 1
+                        break
+            rest = tuple(proj[k:])
+            if x[0] == "proj":
+                return ("proj", x[1], tuple(x[2]) + head + rest)
+            return ("proj", x, head + rest)
+        if base[0] == "proj":
+            return ("proj", base[1], tuple(base[2]) + tuple(proj))
+        return ("proj", base, proj)
+    if t[0] == "call":
+        return (t[0], t[1], [canon_try(a, depth + 1) for a in t[2]]) + tuple(t[3:])
+    if t[0] == "ref":
+        return ("ref", canon_try(t[1], depth + 1))
+    if t[0] == "agg":
+        return ("agg", t[1], t[2], {k: canon_try(v, depth + 1) for k, v in t[3].items()})
+    return t
 
 
 def same_place_term(a, b):
